@@ -34,10 +34,17 @@ def parseAllow (e : String) : Option ((String × String) × Allowance) :=
 def obsAllowRaw (o : Args) (field : String) : List ((String × String) × Allowance) :=
   (o.list field).filterMap parseAllow
 
-def parseVersion (s : String) : Nat × Nat × Nat :=
-  match s.splitOn "." with
-  | [a, b, c] => (a.toNat?.getD 0, b.toNat?.getD 0, c.toNat?.getD 0)
-  | _ => (0, 0, 0)
+/-- `x.y.z` or `x.y.z-<pre-release tag>` (split at the first `-`; the tag may contain dots and dashes) -/
+def parseVersion (s : String) : Nat × Nat × Nat × Option String :=
+  let (core, pre) := match s.splitOn "-" with
+    | c :: p :: ps => (c, some ("-".intercalate (p :: ps)))
+    | _ => (s, none)
+  match core.splitOn "." with
+  | [a, b, c] => (a.toNat?.getD 0, b.toNat?.getD 0, c.toNat?.getD 0, pre)
+  | _ => (0, 0, 0, pre)
+
+def renderVersion (v : Version) : String :=
+  s!"{v.major}.{v.minor}.{v.patch}" ++ (match v.pre with | some p => "-" ++ p | none => "")
 
 /-! ### free text and byte payloads on the wire (see `harness/src/common.rs`) -/
 
@@ -185,7 +192,7 @@ def obsOf (m : MState) : Args :=
      ("pallow", joinC (sortStrings pallow)),
      ("minfo", renderMinfo (queryMarketingInfo s)),
      ("logo", match renderDownload (queryDownloadLogo s) with | .ok v => v | .error _ => "err"),
-     ("ver", s!"{s.version.name}@{s.version.major}.{s.version.minor}.{s.version.patch}")]
+     ("ver", s!"{s.version.name}@{renderVersion s.version}")]
 
 /-! ## Re-synchronisation: the model state rebuilt from an implementation observation -/
 
@@ -225,10 +232,13 @@ def resyncLogo (old : Option Logo) (mi : MarketingInfo) (r : String) : Option (O
 def parseVer (s : String) : Option Version :=
   match (s.splitOn "@").reverse with
   | v :: n :: rest =>
-    match v.splitOn "." with
+    let (core, pre) := match v.splitOn "-" with
+      | c :: p :: ps => (c, some ("-".intercalate (p :: ps)))
+      | _ => (v, none)
+    match core.splitOn "." with
     | [a, b, c] => do
       let a ← a.toNat?; let b ← b.toNat?; let c ← c.toNat?
-      pure ⟨"@".intercalate (n :: rest).reverse, a, b, c⟩
+      pure ⟨"@".intercalate (n :: rest).reverse, a, b, c, pre⟩
     | _ => none
   | _ => none
 
@@ -286,7 +296,7 @@ def stepOp (m : MState) (toks : List String) : MState × StepResult :=
       match parseAllow e with | some (k, v) => acc.set k v | none => acc) []
     let v := parseVersion (a.str "ver")
     ({ m with st := some { supply := total, mint, balances := bals, allow, allowSp := [],
-                           version := ⟨a.str "name", v.1, v.2.1, v.2.2⟩ } },
+                           version := ⟨a.str "name", v.1, v.2.1, v.2.2.1, v.2.2.2⟩ } },
      { ok := some true, tag := "inst_legacy" })
   | "migrate" :: _ =>
     match m.st with
